@@ -129,6 +129,12 @@ struct Obj {
   std::map<long, long> per_slot;  // etl / cetl: contribution per slot (thread id)
   std::map<int, const void*> addr_of;   // live thread -> address local() returned (stability)
   bool busy = false;              // workers may use it in the current phase
+  // reads that overlap adds: which contributions may a concurrent value() contain?
+  struct Contribution { long v, n; };
+  std::map<int, Contribution> inflight;                 // thread -> its add in progress
+  bool reading = false;                                 // a concurrent read is in progress
+  long base_sum = 0, base_num = 0;                      // completed when the read was called
+  std::map<int, std::vector<Contribution>> window;      // per thread, in order: in flight at the call, or started before the return
 };
 
 struct World {
@@ -226,6 +232,11 @@ static void do_op(const Op& op) {
   }
   if (o.kind == SUMMER) vrt_event("call add %d %ld %ld", op.h, op.v, op.n);
   else vrt_event("call add %d %ld", op.h, op.v);
+  {
+    Obj::Contribution c {op.v, o.kind == SUMMER ? op.n : 1};
+    o.inflight[me] = c;
+    if (o.reading) o.window[me].push_back(c);
+  }
   switch (o.kind) {
     case ADDER: *o.adder << op.v; o.total += op.v; break;
     case SUMMER:
@@ -247,6 +258,7 @@ static void do_op(const Op& op) {
     case ETL: o.etl->local() += (uint64_t)op.v; o.total += op.v; break;
     default: o.cetl->local() += (uint64_t)op.v; o.total += op.v; break;
   }
+  o.inflight.erase(me);            // completed (no scheduling point since the store)
   const void* a = local_addr(o);   // fast path now: the cell the operation used
   Loc l;
   bool f = locate(o, a, l);
@@ -320,18 +332,53 @@ struct Visit {
 // quiescent (or concurrent, `conc`) read of handle h; prints the event and checks the reference
 static void do_read(int h, bool conc, bool local) {
   Obj& o = *W->objs[h];
-  if (conc) vrt_event("call cread %d", h);
+  if (conc) {
+    vrt_event("call cread %d", h);
+    o.reading = true;
+    o.base_sum = o.kind == SUMMER ? o.sum : o.total;
+    o.base_num = (long)o.num;
+    o.window.clear();
+    for (auto& kv : o.inflight) o.window[kv.first].push_back(kv.second);
+  }
+  // a value() that overlaps adds must equal (Σ_{i∈S} v_i, Σ_{i∈S} n_i) + (what was complete at the call) for a
+  // set S of the overlapping contributions that is a prefix of every thread's sequence (a thread's
+  // contributions take effect in order, each one indivisibly: {sum, num} is one 128-bit store)
+  auto explained = [&](long sum, long num, bool with_num) {
+    o.reading = false;
+    std::set<std::pair<long, long>> cur {{o.base_sum, o.base_num}};
+    for (auto& kv : o.window) {
+      std::set<std::pair<long, long>> nxt;
+      for (auto& b : cur) {
+        long ds = 0, dn = 0;
+        nxt.insert(b);
+        for (auto& c : kv.second) {
+          ds += c.v;
+          dn += c.n;
+          nxt.insert({b.first + ds, b.second + dn});
+        }
+      }
+      cur.swap(nxt);
+    }
+    for (auto& b : cur)
+      if (b.first == sum && (!with_num || b.second == num)) return true;
+    return false;
+  };
   const char* ev = conc ? "ret cread" : "read";
   switch (o.kind) {
     case ADDER: {
       long v = o.adder->value();
       vrt_event("%s %d %ld", ev, h, v);
       if (!conc && v != o.total) vrt_event("ORACLE adder-sum handle %d: value() = %ld, added %ld", h, v, o.total);
+      if (conc && !explained(v, 0, false))
+        vrt_event("ORACLE concurrent-read handle %d adder: value() = %ld is not (completed at the call) + a per-thread prefix of the overlapping adds", h, v);
       break;
     }
     case SUMMER: {
       auto s = o.summer->value();
       vrt_event("%s %d %ld %lu", ev, h, (long)s.sum, (unsigned long)s.num);
+      if (conc && !explained((long)s.sum, (long)s.num, true))
+        vrt_event("ORACLE concurrent-read handle %d summer: value() = (%ld, %lu) is not (Σ v, Σ n) of (completed at the call) + a per-thread prefix of the overlapping contributions (base (%ld, %ld)): sum and count of one contribution were read apart",
+                  h, (long)s.sum, (unsigned long)s.num, o.base_sum, o.base_num);
       if (!conc && (s.sum != o.sum || s.num != o.num))
         vrt_event("ORACLE summer-sum handle %d: value() = (%ld, %lu), added (%ld, %lu)", h, (long)s.sum, (unsigned long)s.num, o.sum, o.num);
       break;
@@ -365,6 +412,8 @@ static void do_read(int h, bool conc, bool local) {
       // first slot meanwhile: only the sum is a quiescent observation there)
       if (local) vrt_event("%s %d %ld _", ev, h, vis.sum);
       else vrt_event("%s %d %ld %zu", ev, h, vis.sum, vis.slots.size());
+      if (conc && !explained(vis.sum, 0, false))
+        vrt_event("ORACLE concurrent-read handle %d %s: for_each sum %ld is not (completed at the call) + a per-thread prefix of the overlapping adds", h, kind_name[o.kind], vis.sum);
       if (!conc) {
         if (vis.sum != o.total) vrt_event("ORACLE for_each-sum handle %d: %ld, added %ld", h, vis.sum, o.total);
         std::set<long> seen(vis.slots.begin(), vis.slots.end());
@@ -718,6 +767,19 @@ static void run_hist(uint64_t seed) {
           std::find(moved_last.begin(), moved_last.end(), h) == moved_last.end())
         doomed.push_back(h);
     static const Kind local_kinds[] = {ADDER, ADDER, SUMMER, MAXER, MINER, CETL};
+    // a "hot" counter for the concurrent phases: the workers hammer it while the main thread reads it
+    int hot = 0;
+    if (concurrent) {
+      std::vector<int> summers, others;
+      for (int h : busy) {
+        Kind k = W->objs[h]->kind;
+        if (k == SUMMER) summers.push_back(h);
+        else if (k != MAXER && k != MINER) others.push_back(h);
+      }
+      if (!summers.empty() && rng.chance(70)) hot = summers[rng.below(summers.size())];
+      else if (!others.empty()) hot = others[rng.below(others.size())];
+      else if (!summers.empty()) hot = summers[rng.below(summers.size())];
+    }
     for (auto& w : workers) {
       w->ops.clear();
       if (w->last < p || w->first > p) continue;
@@ -734,6 +796,15 @@ static void run_hist(uint64_t seed) {
         if (k == SUMMER && rng.chance(40)) op.n = (long)rng.below(5);
         if (concurrent && (k == ADDER || k == SUMMER) && rng.chance(60)) op.v = std::labs(op.v) % 5000;
         w->ops.push_back(op);
+      }
+      if (hot) {
+        Kind k = W->objs[hot]->kind;
+        int extra = 3 + (int)rng.below(8);
+        for (int i = 0; i < extra; ++i) {
+          Op op {hot, pick_value(rng, k), 1, false};
+          if (k == SUMMER && rng.chance(40)) op.n = (long)rng.below(5);
+          w->ops.insert(w->ops.begin() + rng.below(w->ops.size() + 1), op);
+        }
       }
       int locals = (int)rng.below(4);
       for (int i = 0; i < locals; ++i) {
@@ -766,6 +837,13 @@ static void run_hist(uint64_t seed) {
         op.local_kind = (int)local_kinds[rng.below(sizeof(local_kinds) / sizeof(local_kinds[0]))];
         op.v = pick_value(rng, (Kind)op.local_kind);
         do_local_round(op);
+      }
+    }
+    if (hot) {
+      int reads = 4 + (int)rng.below(8);
+      for (int i = 0; i < reads; ++i) {
+        do_read(hot, true);
+        sched_yield();
       }
     }
     if (concurrent) {
